@@ -39,6 +39,15 @@ CLAIMED = {
             'transaction succeeds. Exhaustive over the enumerated placements only.',
             'Trusted: CPython, harness codecs, shared virtual clock; C05.c asserted only under protocol-sane timers (T_seg + 2*D_max < T_out, retries >= 1).',
             'DESIGN.md section 3 (C05)'),
+    'C10': ('fault_enumeration',
+            'deterministic simulation with corruption faults: complete single-octet substitution / truncation / insertion enumeration per service frame + seeded same-batch interleavings; reply-count oracle with independent classifier',
+            'A complete BACnet/IP device (real UDPMultiplexer/AnnexJ/BIPSimple/NSAP/SMAP/ASAP/application with read/write/RPM/COV/DCC/Who-Is services) runs on an '
+            'in-memory datagram director that keeps the deferred hand-off of the real socket layer. Every single-octet substitution from a value set, every truncation '
+            'and every insertion of one valid frame per service is injected in a fresh world, and seeded batches mix valid requests with garbage at the link, network '
+            'and application layer in one loop batch. Oracles: a datagram the harness\' own narrow classifier finds well framed gets exactly one reply with its invoke id; '
+            'no transaction or transaction timer is left; valid requests queued with garbage are answered; two follow-up ReadProperty requests return the right values.',
+            'Trusted: harness encoder/decoder and the narrow well-framed classifier; a segmented ack counts as one reply; accepted DeviceCommunicationControl legitimately silences the device.',
+            'DESIGN.md section 3 (C10)'),
     'C11': ('exploration',
             'deterministic simulation: seeded exploration of overlapping transactions with fault injection and an adversary station; differential baseline',
             'Seeded runs of 1-40 overlapping requests over 1-4 slow servers (forced invoke-id collisions, 8-bit counter wrap with pinned live ids, two clients '
